@@ -1,1 +1,1190 @@
+//! Engine A — controlled scheduler for the real `Workload::exec`, stateful DFS by re-execution.
+//!
+//! The compiler is built with `--cfg fontc_verif`; `fontdrasil::verif` hands every
+//! synchronisation step of the scheduler loop and of the worker closures to the `Handle`
+//! installed on the calling thread. Exactly one actor runs between two points; the actor
+//! that parks runs the scheduling step itself. See DESIGN.md §2.2.
 
+use fontdrasil::verif::{Ev, Hooks, Op, install};
+use std::{
+    collections::{BTreeMap, BTreeSet, HashMap, VecDeque},
+    hash::{Hash, Hasher},
+    sync::{Arc, Condvar, Mutex},
+    time::Instant,
+};
+
+#[derive(Debug, Clone, PartialEq, Eq, Hash)]
+enum COp {
+    User(Op),
+    Join,
+}
+
+#[derive(Default)]
+struct Actor {
+    next: Option<COp>,
+    done: bool,
+    started: bool,
+    ended: bool,
+    job: Option<String>,
+    decs_done: usize,
+    sent: bool,
+    received: bool,
+    counters: Vec<&'static str>,
+    vc: Vec<u32>,
+    /// protocol trace: S(tart) B(egin) E(nd) D(ec) s(end) e(nd)
+    trace: String,
+}
+
+#[derive(Debug, Clone)]
+struct AccessRec {
+    actor: usize,
+    job: Option<String>,
+    write: bool,
+    item: String,
+    vc: Vec<u32>,
+}
+
+/// The visited-state set: `check_insert(key, remaining)` returns true if the state must be
+/// expanded (never seen, or seen only with a smaller remaining deviation budget).
+pub trait VisitedSet: Send + Sync {
+    fn check_insert(&self, key: u64, remaining: usize) -> bool;
+    fn len(&self) -> usize;
+}
+
+impl VisitedSet for Mutex<HashMap<u64, usize>> {
+    fn check_insert(&self, key: u64, remaining: usize) -> bool {
+        let mut v = self.lock().unwrap();
+        match v.get(&key) {
+            Some(r) if *r >= remaining => false,
+            _ => {
+                v.insert(key, remaining);
+                true
+            }
+        }
+    }
+    fn len(&self) -> usize {
+        self.lock().unwrap().len()
+    }
+}
+
+pub type Visited = Arc<dyn VisitedSet>;
+
+pub fn new_visited() -> Visited {
+    Arc::new(Mutex::new(HashMap::new()))
+}
+
+/// A visited set shared between worker processes: open-addressing table in a shared-memory file.
+pub struct ShmTable {
+    ptr: *mut std::sync::atomic::AtomicU64,
+    cap: usize,
+}
+unsafe impl Send for ShmTable {}
+unsafe impl Sync for ShmTable {}
+
+impl ShmTable {
+    pub const ENTRIES: usize = 1 << 23;
+    pub fn create(path: &std::path::Path) -> std::io::Result<()> {
+        let f = std::fs::OpenOptions::new().read(true).write(true).create(true).truncate(true).open(path)?;
+        f.set_len((Self::ENTRIES * 16) as u64)
+    }
+    pub fn open(path: &std::path::Path) -> std::io::Result<ShmTable> {
+        use std::os::fd::AsRawFd;
+        let f = std::fs::OpenOptions::new().read(true).write(true).open(path)?;
+        let len = f.metadata()?.len() as usize;
+        let ptr = unsafe {
+            libc::mmap(std::ptr::null_mut(), len, libc::PROT_READ | libc::PROT_WRITE, libc::MAP_SHARED, f.as_raw_fd(), 0)
+        };
+        if ptr == libc::MAP_FAILED {
+            return Err(std::io::Error::last_os_error());
+        }
+        Ok(ShmTable { ptr: ptr as *mut _, cap: len / 16 })
+    }
+    fn slot(&self, i: usize) -> (&std::sync::atomic::AtomicU64, &std::sync::atomic::AtomicU64) {
+        unsafe { (&*self.ptr.add(2 * i), &*self.ptr.add(2 * i + 1)) }
+    }
+}
+
+impl VisitedSet for ShmTable {
+    fn check_insert(&self, key: u64, remaining: usize) -> bool {
+        use std::sync::atomic::Ordering::SeqCst;
+        let key = if key == 0 { 1 } else { key };
+        let want = remaining as u64 + 1;
+        let mut i = (key.wrapping_mul(0x9E3779B97F4A7C15) >> 20) as usize % self.cap;
+        for _ in 0..self.cap {
+            let (k, v) = self.slot(i);
+            let cur = k.load(SeqCst);
+            if cur == 0 {
+                match k.compare_exchange(0, key, SeqCst, SeqCst) {
+                    Ok(_) => {
+                        v.store(want, SeqCst);
+                        return true;
+                    }
+                    Err(other) if other != key => {
+                        i = (i + 1) % self.cap;
+                        continue;
+                    }
+                    Err(_) => {}
+                }
+            } else if cur != key {
+                i = (i + 1) % self.cap;
+                continue;
+            }
+            // our key
+            loop {
+                let have = v.load(SeqCst);
+                if have >= want {
+                    return false;
+                }
+                if v.compare_exchange(have, want, SeqCst, SeqCst).is_ok() {
+                    return true;
+                }
+            }
+        }
+        true // table full: expand everything (sound, only slower)
+    }
+    fn len(&self) -> usize {
+        0
+    }
+}
+
+#[derive(Clone)]
+pub struct RunCfg {
+    /// pool size: at most k tasks between TaskStart and TaskEnd
+    pub k: usize,
+    /// base order: main has the lowest (true) or highest (false) base priority
+    pub main_last: bool,
+    /// deviation budget (demotions)
+    pub dmax: usize,
+    /// on reaching a visited state: false = abandon the execution, true = finish it on the default schedule
+    pub harvest: bool,
+}
+
+#[derive(Default)]
+struct Inner {
+    actors: Vec<Actor>,
+    current: Option<usize>,
+    chan: VecDeque<(String, Vec<u32>, usize)>,
+    queue: Vec<String>,
+    launched: HashMap<String, Vec<&'static str>>,
+    launch_vc: HashMap<String, Vec<u32>>,
+    counter_vc: HashMap<&'static str, Vec<u32>>,
+    inflight: usize,
+    k: usize,
+    main_last: bool,
+    harvest: bool,
+    fast_forward: bool,
+    demoted: Vec<usize>,
+    accesses: Vec<AccessRec>,
+    obs: Vec<String>,
+    launch_order: Vec<String>,
+    window_loads: usize,
+    passthrough_loads: usize,
+    yielding_loads: usize,
+    abort: bool,
+    finished: bool,
+    deadlock: Option<String>,
+    pruned: bool,
+    prefix: Vec<usize>,
+    step: usize,
+    points: Vec<(usize, usize)>,
+    branchable: usize,
+    visited: Option<Visited>,
+    new_states: usize,
+    dmax: usize,
+    used: usize,
+    cvs: Vec<Arc<Condvar>>,
+    threads: Vec<std::thread::JoinHandle<()>>,
+    divergence: Option<String>,
+}
+
+struct Shared {
+    m: Mutex<Inner>,
+    cv: Condvar,
+}
+
+struct AbortExec;
+
+struct Handle {
+    sh: Arc<Shared>,
+    id: usize,
+}
+
+fn vc_join(a: &mut Vec<u32>, b: &[u32]) {
+    if a.len() < b.len() {
+        a.resize(b.len(), 0);
+    }
+    for (x, y) in a.iter_mut().zip(b) {
+        *x = (*x).max(*y);
+    }
+}
+
+impl Inner {
+    fn tick(&mut self, id: usize) {
+        let a = &mut self.actors[id];
+        if a.vc.len() <= id {
+            a.vc.resize(id + 1, 0);
+        }
+        a.vc[id] += 1;
+    }
+
+    /// is there a started or queued task that still has a Dec on `c` ahead of it?
+    fn pending_dec(&self, c: &str) -> bool {
+        for (i, a) in self.actors.iter().enumerate() {
+            if i == 0 || a.done || a.ended {
+                continue;
+            }
+            if a.started && a.job.is_some() && a.counters.iter().skip(a.decs_done).any(|x| *x == c) {
+                return true;
+            }
+        }
+        self.queue
+            .iter()
+            .any(|j| self.launched.get(j).is_some_and(|cs| cs.iter().any(|x| *x == c)))
+    }
+
+    /// has some task decremented `c` while main has not yet received that task's completion?
+    fn in_window(&self, c: &str) -> bool {
+        self.actors.iter().enumerate().any(|(i, a)| {
+            i != 0 && !a.received && a.counters.iter().take(a.decs_done).any(|x| *x == c)
+        })
+    }
+
+    fn wake_all(&self, sh: &Shared) {
+        for cv in self.cvs.iter() {
+            cv.notify_one();
+        }
+        sh.cv.notify_one();
+    }
+
+    /// Called by whoever just released the baton (current == None). Picks the next actor.
+    fn sched(&mut self, sh: &Shared) {
+        debug_assert!(self.current.is_none());
+        if self.abort || self.finished {
+            return;
+        }
+        if self.actors.iter().all(|a| a.done) {
+            self.finished = true;
+            sh.cv.notify_one();
+            return;
+        }
+        let mut en: Vec<usize> = (0..self.actors.len()).filter(|i| enabled(self, *i)).collect();
+        // strict priorities: non-demoted actors by id (main first, or main last), then demoted in demotion order
+        let main_last = self.main_last;
+        let demoted = self.demoted.clone();
+        en.sort_by_key(|i| {
+            if let Some(p) = demoted.iter().position(|d| d == i) {
+                (2usize, p)
+            } else if *i == 0 && main_last {
+                (1, 0)
+            } else {
+                (0, *i)
+            }
+        });
+        if en.is_empty() {
+            let waiting: Vec<String> = self
+                .actors
+                .iter()
+                .enumerate()
+                .filter(|(_, a)| !a.done)
+                .map(|(i, a)| format!("{i}:{:?}", a.next))
+                .collect();
+            self.deadlock = Some(waiting.join(" | "));
+            self.abort = true;
+            self.wake_all(sh);
+            return;
+        }
+        let choice = if self.fast_forward {
+            0
+        } else if self.step < self.prefix.len() {
+            let c = self.prefix[self.step];
+            if c >= en.len() {
+                self.divergence = Some(format!(
+                    "replay divergence at step {}: choice {c} of {} enabled",
+                    self.step,
+                    en.len()
+                ));
+                self.abort = true;
+                self.wake_all(sh);
+                return;
+            }
+            c
+        } else {
+            if let Some(visited) = self.visited.clone() {
+                if let Some(key) = state_key(self) {
+                    let remaining = self.dmax.saturating_sub(self.used);
+                    let fresh = visited.check_insert(key, remaining);
+                    if fresh {
+                        self.new_states += 1;
+                    } else if self.harvest {
+                        self.pruned = true;
+                        self.fast_forward = true;
+                        self.branchable = self.points.len();
+                    } else {
+                        self.pruned = true;
+                        self.abort = true;
+                        self.wake_all(sh);
+                        return;
+                    }
+                }
+            }
+            0
+        };
+        if !self.fast_forward {
+            self.points.push((en.len(), choice));
+            self.branchable = self.points.len();
+            self.used += choice;
+            for d in en.iter().take(choice) {
+                if !self.demoted.contains(d) {
+                    self.demoted.push(*d);
+                }
+            }
+        }
+        self.step += 1;
+        let who = en[choice];
+        let op = self.actors[who].next.take().unwrap();
+        match &op {
+            COp::User(Op::TaskStart) => {
+                self.inflight += 1;
+                self.actors[who].started = true;
+                self.actors[who].trace.push('S');
+            }
+            COp::User(Op::TaskEnd) => {
+                self.inflight -= 1;
+                self.actors[who].ended = true;
+                self.actors[who].trace.push('e');
+            }
+            COp::User(Op::Dec(c)) => {
+                self.actors[who].decs_done += 1;
+                self.actors[who].trace.push('D');
+                self.tick(who);
+                let mine = self.actors[who].vc.clone();
+                let e = self.counter_vc.entry(c).or_default();
+                vc_join(e, &mine);
+                let e = e.clone();
+                vc_join(&mut self.actors[who].vc, &e);
+            }
+            COp::User(Op::Load(c)) => {
+                self.yielding_loads += 1;
+                if self.in_window(c) {
+                    self.window_loads += 1;
+                }
+                if let Some(cv) = self.counter_vc.get(c).cloned() {
+                    vc_join(&mut self.actors[who].vc, &cv);
+                }
+            }
+            COp::User(Op::Send(j)) => {
+                self.actors[who].sent = true;
+                self.actors[who].trace.push('s');
+                self.tick(who);
+                let vc = self.actors[who].vc.clone();
+                self.chan.push_back((j.clone(), vc, who));
+            }
+            COp::User(Op::RecvBlocking(_)) | COp::User(Op::TryRecv(_)) => {
+                if let Some((_, vc, from)) = self.chan.pop_front() {
+                    vc_join(&mut self.actors[who].vc, &vc);
+                    self.actors[from].received = true;
+                }
+            }
+            _ => {}
+        }
+        self.current = Some(who);
+        self.cvs[who].notify_one();
+    }
+}
+
+impl Handle {
+    fn park(&self, op: COp) {
+        let mut g = self.sh.m.lock().unwrap();
+        // ops that commute with everything another actor can do before this actor's next point do not yield
+        match &op {
+            COp::User(Op::Load(c)) if !g.pending_dec(c) => {
+                g.passthrough_loads += 1;
+                if g.in_window(c) {
+                    g.window_loads += 1;
+                }
+                if let Some(cv) = g.counter_vc.get(c).cloned() {
+                    vc_join(&mut g.actors[self.id].vc, &cv);
+                }
+                return;
+            }
+            COp::User(Op::MainRmw(c)) => {
+                g.tick(self.id);
+                let mine = g.actors[self.id].vc.clone();
+                let e = g.counter_vc.entry(c).or_default();
+                vc_join(e, &mine);
+                let e = e.clone();
+                vc_join(&mut g.actors[self.id].vc, &e);
+                return;
+            }
+            _ => {}
+        }
+        if g.abort {
+            if matches!(op, COp::Join) {
+                return;
+            }
+            drop(g);
+            std::panic::resume_unwind(Box::new(AbortExec));
+        }
+        g.actors[self.id].next = Some(op);
+        if g.current == Some(self.id) {
+            g.current = None;
+            g.sched(&self.sh);
+        } else if let Some(c) = g.current {
+            // fresh task parking for the first time: tell the spawner
+            g.cvs[c].notify_one();
+        }
+        let cv = g.cvs[self.id].clone();
+        while g.current != Some(self.id) && !g.abort {
+            g = cv.wait(g).unwrap();
+        }
+        if g.abort {
+            let is_join = matches!(g.actors[self.id].next, Some(COp::Join));
+            drop(g);
+            if is_join {
+                return;
+            }
+            std::panic::resume_unwind(Box::new(AbortExec));
+        }
+    }
+}
+
+impl Hooks for Handle {
+    fn point(&self, op: Op) {
+        self.park(COp::User(op));
+    }
+    fn event(&self, ev: Ev) {
+        let mut g = self.sh.m.lock().unwrap();
+        let id = self.id;
+        match ev {
+            Ev::Launch { job, counters, .. } => {
+                g.tick(id);
+                let vc = g.actors[id].vc.clone();
+                g.launch_vc.insert(job.clone(), vc);
+                g.launched.insert(job.clone(), counters);
+                g.obs.push(format!("L {job}"));
+                g.launch_order.push(job);
+            }
+            Ev::QueueOrder(q) => {
+                g.queue = q;
+            }
+            Ev::ExecBegin(job) => {
+                if let Some(pos) = g.queue.iter().rposition(|j| *j == job) {
+                    g.queue.remove(pos);
+                }
+                let counters = g.launched.get(&job).cloned().unwrap_or_default();
+                let lvc = g.launch_vc.get(&job).cloned().unwrap_or_default();
+                let a = &mut g.actors[id];
+                a.job = Some(job);
+                a.counters = counters;
+                a.trace.push('B');
+                vc_join(&mut a.vc, &lvc);
+                g.tick(id);
+            }
+            Ev::ExecEnd(_) => {
+                g.actors[id].trace.push('E');
+                g.tick(id);
+            }
+            Ev::Access { write, id: item } => {
+                // every access gets its own clock value, so "y has seen x" means y synchronised
+                // with x's actor *after* x (not merely after the actor's previous release)
+                g.tick(id);
+                let job = g.actors[id].job.clone();
+                let vc = g.actors[id].vc.clone();
+                g.accesses.push(AccessRec {
+                    actor: id,
+                    job,
+                    write,
+                    item,
+                    vc,
+                });
+            }
+            Ev::HandleSuccess(j) => g.obs.push(format!("H {j}")),
+            Ev::JobAdded(j) => g.obs.push(format!("A {j}")),
+            Ev::Received(j) => g.obs.push(format!("R {j}")),
+            _ => {}
+        }
+    }
+    fn spawn(&self, f: Box<dyn FnOnce() + Send + 'static>) {
+        let new_id = {
+            let mut g = self.sh.m.lock().unwrap();
+            g.actors.push(Actor::default());
+            g.cvs.push(Arc::new(Condvar::new()));
+            g.actors.len() - 1
+        };
+        let sh = self.sh.clone();
+        let th = std::thread::Builder::new()
+            .stack_size(8 << 20)
+            .spawn(move || {
+                install(Some(Arc::new(Handle {
+                    sh: sh.clone(),
+                    id: new_id,
+                })));
+                let _ = std::panic::catch_unwind(std::panic::AssertUnwindSafe(f));
+                install(None);
+                let mut g = sh.m.lock().unwrap();
+                let a = &mut g.actors[new_id];
+                a.done = true;
+                a.sent = true;
+                let dec_inflight = a.started && !a.ended;
+                a.ended = true;
+                if dec_inflight {
+                    g.inflight -= 1;
+                }
+                if g.current == Some(new_id) {
+                    g.current = None;
+                    g.sched(&sh);
+                }
+            })
+            .expect("spawn task thread");
+        // wait until the new task is parked at its first point
+        let mut g = self.sh.m.lock().unwrap();
+        g.threads.push(th);
+        let cv = g.cvs[self.id].clone();
+        while g.actors[new_id].next.is_none() && !g.actors[new_id].done && !g.abort {
+            g = cv.wait(g).unwrap();
+        }
+    }
+    fn join_all(&self) {
+        self.park(COp::Join);
+    }
+}
+
+fn enabled(g: &Inner, i: usize) -> bool {
+    let a = &g.actors[i];
+    if a.done {
+        return false;
+    }
+    match a.next.as_ref() {
+        None => false,
+        Some(COp::Join) => g.actors.iter().skip(1).all(|t| t.done),
+        Some(COp::User(Op::RecvBlocking(_))) => !g.chan.is_empty(),
+        Some(COp::User(Op::TaskStart)) => g.inflight < g.k,
+        Some(_) => true,
+    }
+}
+
+fn state_key(g: &Inner) -> Option<u64> {
+    // only when main is parked with a full description of its own state
+    let main = match g.actors[0].next.as_ref()? {
+        COp::User(Op::LoopHead(d)) => format!("LH{d}"),
+        COp::User(Op::RecvBlocking(d)) => format!("RB{d}"),
+        COp::User(Op::TryRecv(d)) => format!("TR{d}"),
+        _ => return None,
+    };
+    let mut h = std::collections::hash_map::DefaultHasher::new();
+    main.hash(&mut h);
+    for (j, _, _) in &g.chan {
+        j.hash(&mut h);
+    }
+    "|q".hash(&mut h);
+    g.queue.hash(&mut h);
+    let mut live: Vec<(String, usize, bool, String)> = g
+        .actors
+        .iter()
+        .skip(1)
+        .filter(|a| !a.done && a.started)
+        .map(|a| {
+            (
+                a.job.clone().unwrap_or_default(),
+                a.decs_done,
+                a.sent,
+                format!("{:?}", a.next),
+            )
+        })
+        .collect();
+    live.sort();
+    live.hash(&mut h);
+    let unstarted = g
+        .actors
+        .iter()
+        .skip(1)
+        .filter(|a| !a.done && !a.started)
+        .count();
+    unstarted.hash(&mut h);
+    g.k.hash(&mut h);
+    g.main_last.hash(&mut h);
+    let dem: Vec<String> = g
+        .demoted
+        .iter()
+        .filter(|d| !g.actors[**d].done)
+        .map(|d| {
+            if *d == 0 {
+                "main".to_string()
+            } else {
+                g.actors[*d].job.clone().unwrap_or(format!("t{d}"))
+            }
+        })
+        .collect();
+    dem.hash(&mut h);
+    Some(h.finish())
+}
+
+/// What one controlled execution showed.
+#[derive(Debug, Clone, Default, serde::Serialize, serde::Deserialize)]
+pub struct ExecResult {
+    /// (number of enabled actors, chosen index) per scheduling step taken before any fast-forward
+    pub points: Vec<(usize, usize)>,
+    pub pruned: bool,
+    /// Some(outcome) if the execution ran to its end (always in harvest mode unless deadlocked)
+    pub outcome: Option<String>,
+    pub deadlock: Option<String>,
+    pub divergence: Option<String>,
+    pub races: Vec<String>,
+    pub protocol_errors: Vec<String>,
+    pub obs: Vec<String>,
+    pub launch_order_hash: u64,
+    pub window_loads: usize,
+    pub passthrough_loads: usize,
+    pub yielding_loads: usize,
+    pub new_states: usize,
+    pub n_steps: usize,
+    pub n_tasks: usize,
+    pub n_accesses: usize,
+}
+
+/// The job: runs the compiler on the calling thread (a handle is installed) and describes the result.
+pub type Job = Arc<dyn Fn() -> String + Send + Sync>;
+
+pub fn run_one(job: &Job, cfg: &RunCfg, prefix: &[usize], visited: Option<&Visited>) -> ExecResult {
+    let sh = Arc::new(Shared {
+        m: Mutex::new(Inner {
+            k: cfg.k,
+            main_last: cfg.main_last,
+            harvest: cfg.harvest,
+            prefix: prefix.to_vec(),
+            dmax: cfg.dmax,
+            visited: visited.cloned(),
+            ..Default::default()
+        }),
+        cv: Condvar::new(),
+    });
+    {
+        let mut g = sh.m.lock().unwrap();
+        g.actors.push(Actor {
+            started: true,
+            received: true,
+            ..Default::default()
+        });
+        g.cvs.push(Arc::new(Condvar::new()));
+        g.current = Some(0);
+    }
+    let outcome: Arc<Mutex<Option<String>>> = Arc::new(Mutex::new(None));
+    let main_thread = {
+        let sh = sh.clone();
+        let outcome = outcome.clone();
+        let job = job.clone();
+        std::thread::Builder::new()
+            .stack_size(16 << 20)
+            .spawn(move || {
+                install(Some(Arc::new(Handle {
+                    sh: sh.clone(),
+                    id: 0,
+                })));
+                let r = std::panic::catch_unwind(std::panic::AssertUnwindSafe(|| job()));
+                install(None);
+                let o = match r {
+                    Ok(s) => Some(s),
+                    Err(p) => {
+                        if p.is::<AbortExec>() {
+                            None
+                        } else {
+                            Some(format!(
+                                "panic:{}",
+                                p.downcast_ref::<String>()
+                                    .cloned()
+                                    .or(p.downcast_ref::<&str>().map(|s| s.to_string()))
+                                    .unwrap_or_default()
+                            ))
+                        }
+                    }
+                };
+                *outcome.lock().unwrap() = o;
+                let mut g = sh.m.lock().unwrap();
+                g.actors[0].done = true;
+                if g.current == Some(0) {
+                    g.current = None;
+                    g.sched(&sh);
+                }
+                sh.cv.notify_one();
+            })
+            .expect("spawn main thread")
+    };
+    {
+        let mut g = sh.m.lock().unwrap();
+        while !(g.finished || g.abort) {
+            g = sh.cv.wait(g).unwrap();
+        }
+    }
+    let _ = main_thread.join();
+    let ths: Vec<_> = std::mem::take(&mut sh.m.lock().unwrap().threads);
+    for t in ths {
+        let _ = t.join();
+    }
+    let g = sh.m.lock().unwrap();
+    let mut races = race_check(&g.accesses);
+    races.sort();
+    races.dedup();
+    // worker protocol (monitor 4) on tasks that ran to their end
+    let mut protocol_errors = vec![];
+    if !g.abort {
+        for (i, a) in g.actors.iter().enumerate().skip(1) {
+            let t = a.trace.as_str();
+            // S first, B before E, then any order of Dec* and exactly one send, e last
+            let ok = t.starts_with("SBE")
+                && t.ends_with('e')
+                && t.len() >= 5
+                && t[3..t.len() - 1].chars().all(|c| c == 'D' || c == 's')
+                && t.matches('s').count() == 1;
+            if !ok {
+                protocol_errors.push(format!("task {i} ({:?}) trace {t}", a.job));
+            }
+        }
+    }
+    let mut lh = std::collections::hash_map::DefaultHasher::new();
+    g.launch_order.hash(&mut lh);
+    let aborted = g.abort;
+    ExecResult {
+        points: g.points[..g.branchable.min(g.points.len())].to_vec(),
+        pruned: g.pruned,
+        outcome: if aborted { None } else { outcome.lock().unwrap().clone() },
+        deadlock: g.deadlock.clone(),
+        divergence: g.divergence.clone(),
+        races,
+        protocol_errors,
+        obs: g.obs.clone(),
+        launch_order_hash: lh.finish(),
+        window_loads: g.window_loads,
+        passthrough_loads: g.passthrough_loads,
+        yielding_loads: g.yielding_loads,
+        new_states: g.new_states,
+        n_steps: g.step,
+        n_tasks: g.actors.len() - 1,
+        n_accesses: g.accesses.len(),
+    }
+}
+
+/// Monitor 2: for every pair of accesses to the same item by different actors with at least one
+/// real write, one must happen-before the other (vector clocks).
+fn race_check(accesses: &[AccessRec]) -> Vec<String> {
+    let mut races = Vec::new();
+    let mut by_item: BTreeMap<&str, Vec<&AccessRec>> = BTreeMap::new();
+    for a in accesses {
+        by_item.entry(a.item.as_str()).or_default().push(a);
+    }
+    for (item, accs) in by_item {
+        for (i, x) in accs.iter().enumerate() {
+            for y in accs.iter().skip(i + 1) {
+                if x.actor == y.actor || !(x.write || y.write) {
+                    continue;
+                }
+                // membership writes of a map commute with each other
+                if item.starts_with("MAP:") && x.write && y.write {
+                    continue;
+                }
+                // x precedes y in log order; HB iff y has seen x's own component
+                let xs = x.vc.get(x.actor).copied().unwrap_or(0);
+                let yv = y.vc.get(x.actor).copied().unwrap_or(0);
+                if xs > yv {
+                    let who = |a: &AccessRec| {
+                        a.job
+                            .clone()
+                            .unwrap_or_else(|| if a.actor == 0 { "main".into() } else { format!("task{}", a.actor) })
+                    };
+                    races.push(format!(
+                        "{item}: {}({}) vs {}({})",
+                        who(x),
+                        if x.write { "w" } else { "r" },
+                        who(y),
+                        if y.write { "w" } else { "r" }
+                    ));
+                }
+            }
+        }
+    }
+    races
+}
+
+// ------------------------------------------------------------------ explorer
+
+#[derive(Clone)]
+pub struct ExploreCfg {
+    pub run: RunCfg,
+    pub threads: usize,
+    pub max_execs: Option<usize>,
+    pub deadline: Option<Instant>,
+    /// share a visited map between several explorations (same source, same k/order keyed inside)
+    pub visited: Option<Visited>,
+}
+
+#[derive(Debug, Clone, Default)]
+pub struct ExploreStats {
+    pub execs: usize,
+    pub pruned: usize,
+    pub complete: usize,
+    pub states: usize,
+    pub transitions: usize,
+    pub max_depth: usize,
+    pub max_enabled: usize,
+    pub outcomes: BTreeMap<String, usize>,
+    /// first schedule (choice list) exhibiting each distinct race / failure / deadlock
+    pub races: BTreeMap<String, Vec<usize>>,
+    pub failures: BTreeMap<String, Vec<usize>>,
+    pub deadlocks: BTreeMap<String, Vec<usize>>,
+    pub protocol_errors: BTreeMap<String, Vec<usize>>,
+    pub divergences: Vec<String>,
+    pub window_execs: usize,
+    pub window_loads: usize,
+    pub passthrough_loads: usize,
+    pub yielding_loads: usize,
+    pub launch_orders: BTreeSet<u64>,
+    pub capped: bool,
+    pub tasks_max: usize,
+    pub steps_max: usize,
+    pub default_schedule_steps: usize,
+    pub new_states_sum: usize,
+    /// first schedule that produced each distinct outcome
+    pub outcome_first: BTreeMap<String, Vec<usize>>,
+    /// a few explored schedules: (non-default choices as (step, choice), steps, outcome or "abandoned at visited state")
+    pub samples: Vec<(Vec<(usize, usize)>, usize, String)>,
+}
+
+fn pin_to_core(core: usize) {
+    unsafe {
+        let mut set: libc::cpu_set_t = std::mem::zeroed();
+        libc::CPU_ZERO(&mut set);
+        libc::CPU_SET(core, &mut set);
+        libc::sched_setaffinity(0, std::mem::size_of::<libc::cpu_set_t>(), &set);
+    }
+}
+
+fn allowed_cores() -> Vec<usize> {
+    unsafe {
+        let mut set: libc::cpu_set_t = std::mem::zeroed();
+        if libc::sched_getaffinity(0, std::mem::size_of::<libc::cpu_set_t>(), &mut set) != 0 {
+            return (0..4).collect();
+        }
+        (0..libc::CPU_SETSIZE as usize)
+            .filter(|c| libc::CPU_ISSET(*c, &set))
+            .collect()
+    }
+}
+
+struct Frontier {
+    stack: Vec<Vec<usize>>,
+    active: usize,
+    execs: usize,
+    stop: bool,
+}
+
+/// Enumerate all schedules within `dmax` demotions of the base scheduler (stateful DFS by
+/// re-execution), in this process: one explorer thread per core.
+pub fn explore(job: &Job, cfg: &ExploreCfg) -> ExploreStats {
+    let visited: Visited = cfg.visited.clone().unwrap_or_else(new_visited);
+    let states_before = visited.len();
+    let cores = allowed_cores();
+    let nthreads = cfg.threads.max(1).min(cores.len().max(1));
+    let runners: Vec<Box<dyn FnMut(&[usize]) -> ExecResult + Send>> = (0..nthreads)
+        .map(|t| {
+            let job = job.clone();
+            let run = cfg.run.clone();
+            let visited = visited.clone();
+            let core = cores[t % cores.len()];
+            let mut pinned = false;
+            Box::new(move |prefix: &[usize]| {
+                if !pinned {
+                    pin_to_core(core);
+                    pinned = true;
+                }
+                run_one(&job, &run, prefix, Some(&visited))
+            }) as Box<dyn FnMut(&[usize]) -> ExecResult + Send>
+        })
+        .collect();
+    let mut st = explore_with(runners, cfg);
+    st.states = visited.len() - states_before;
+    st
+}
+
+/// The same search with one worker *process* per core (thread creation in one address space
+/// serialises on the kernel's mmap lock; processes do not). The visited set is a table in
+/// shared memory. `worker_arg` is handed to the workers (see `worker_env` / `worker_loop`).
+pub fn explore_mp(cfg: &ExploreCfg, worker_arg: &str, shm_dir: &std::path::Path) -> ExploreStats {
+    use std::io::{BufRead, BufReader, Write};
+    use std::process::{Command, Stdio};
+    static N: std::sync::atomic::AtomicUsize = std::sync::atomic::AtomicUsize::new(0);
+    let shm = shm_dir.join(format!(
+        "vrt-visited-{}-{}.shm",
+        std::process::id(),
+        N.fetch_add(1, std::sync::atomic::Ordering::Relaxed)
+    ));
+    ShmTable::create(&shm).expect("create shared visited table");
+    let cores = allowed_cores();
+    let nproc = cfg.threads.max(1).min(cores.len().max(1));
+    struct Child {
+        proc: std::process::Child,
+        stdin: std::process::ChildStdin,
+        stdout: BufReader<std::process::ChildStdout>,
+    }
+    let spawn = {
+        let shm = shm.clone();
+        let worker_arg = worker_arg.to_string();
+        let run = cfg.run.clone();
+        move |core: usize| -> Child {
+            let exe = std::env::current_exe().expect("current_exe");
+            let mut proc = Command::new(exe)
+                .env("VERIF_VRT_WORKER", &worker_arg)
+                .env("VERIF_VRT_SHM", &shm)
+                .env("VERIF_VRT_CORE", core.to_string())
+                .env(
+                    "VERIF_VRT_RUN",
+                    format!("{},{},{},{}", run.k, run.main_last as u8, run.dmax, run.harvest as u8),
+                )
+                .stdin(Stdio::piped())
+                .stdout(Stdio::piped())
+                .stderr(Stdio::null())
+                .spawn()
+                .expect("spawn vrt worker");
+            let stdin = proc.stdin.take().unwrap();
+            let stdout = BufReader::new(proc.stdout.take().unwrap());
+            Child { proc, stdin, stdout }
+        }
+    };
+    let runners: Vec<Box<dyn FnMut(&[usize]) -> ExecResult + Send>> = (0..nproc)
+        .map(|t| {
+            let core = cores[t % cores.len()];
+            let spawn = spawn.clone();
+            let mut child: Option<Child> = None;
+            Box::new(move |prefix: &[usize]| {
+                for _attempt in 0..2 {
+                    let ch = child.get_or_insert_with(|| spawn(core));
+                    let line: String = prefix.iter().map(|c| c.to_string()).collect::<Vec<_>>().join(",");
+                    let sent = writeln!(ch.stdin, "P {line}").is_ok() && ch.stdin.flush().is_ok();
+                    let mut reply = String::new();
+                    if sent {
+                        loop {
+                            reply.clear();
+                            match ch.stdout.read_line(&mut reply) {
+                                Ok(0) | Err(_) => {
+                                    reply.clear();
+                                    break;
+                                }
+                                Ok(_) => {
+                                    if reply.starts_with("VRT ") {
+                                        break;
+                                    }
+                                }
+                            }
+                        }
+                    }
+                    if let Some(json) = reply.strip_prefix("VRT ") {
+                        if let Ok(r) = serde_json::from_str::<ExecResult>(json) {
+                            return r;
+                        }
+                    }
+                    // the worker died during this execution: that is an outcome of the execution
+                    let status = ch.proc.wait().ok();
+                    child = None;
+                    use std::os::unix::process::ExitStatusExt;
+                    let what = status
+                        .map(|s| format!("signal {:?} exit {:?}", s.signal(), s.code()))
+                        .unwrap_or_default();
+                    if sent {
+                        return ExecResult {
+                            outcome: Some(format!("crash:worker process died during the execution ({what})")),
+                            points: prefix.iter().map(|c| (c + 1, *c)).collect(),
+                            ..Default::default()
+                        };
+                    }
+                }
+                ExecResult {
+                    divergence: Some("worker process could not be started".into()),
+                    ..Default::default()
+                }
+            }) as Box<dyn FnMut(&[usize]) -> ExecResult + Send>
+        })
+        .collect();
+    let mut st = explore_with(runners, cfg);
+    st.states = st.new_states_sum;
+    let _ = std::fs::remove_file(&shm);
+    st
+}
+
+/// In a worker process: the argument the coordinator passed.
+pub fn worker_env() -> Option<String> {
+    std::env::var("VERIF_VRT_WORKER").ok()
+}
+
+/// Worker process main loop: reads prefixes, runs them, prints results. Never returns.
+pub fn worker_loop(job: &Job) -> ! {
+    use std::io::{BufRead, Write};
+    if let Some(core) = std::env::var("VERIF_VRT_CORE").ok().and_then(|s| s.parse().ok()) {
+        pin_to_core(core);
+    }
+    let run = {
+        let v: Vec<usize> = std::env::var("VERIF_VRT_RUN")
+            .unwrap_or_default()
+            .split(',')
+            .filter_map(|x| x.parse().ok())
+            .collect();
+        RunCfg {
+            k: v.first().copied().unwrap_or(64),
+            main_last: v.get(1).copied().unwrap_or(0) == 1,
+            dmax: v.get(2).copied().unwrap_or(0),
+            harvest: v.get(3).copied().unwrap_or(0) == 1,
+        }
+    };
+    let table: Visited = Arc::new(
+        ShmTable::open(std::path::Path::new(&std::env::var("VERIF_VRT_SHM").unwrap_or_default()))
+            .expect("open shared visited table"),
+    );
+    let stdin = std::io::stdin();
+    let mut line = String::new();
+    loop {
+        line.clear();
+        match stdin.lock().read_line(&mut line) {
+            Ok(0) | Err(_) => std::process::exit(0),
+            Ok(_) => {}
+        }
+        let Some(rest) = line.trim_end().strip_prefix("P") else {
+            continue;
+        };
+        let prefix: Vec<usize> = rest
+            .trim()
+            .split(',')
+            .filter_map(|x| x.parse().ok())
+            .collect();
+        let r = run_one(job, &run, &prefix, Some(&table));
+        let out = std::io::stdout();
+        let mut o = out.lock();
+        let _ = writeln!(o, "VRT {}", serde_json::to_string(&r).unwrap_or_default());
+        let _ = o.flush();
+    }
+}
+
+fn explore_with(
+    runners: Vec<Box<dyn FnMut(&[usize]) -> ExecResult + Send>>,
+    cfg: &ExploreCfg,
+) -> ExploreStats {
+    let frontier = Arc::new((
+        Mutex::new(Frontier {
+            stack: vec![vec![]],
+            active: 0,
+            execs: 0,
+            stop: false,
+        }),
+        Condvar::new(),
+    ));
+    let stats = Arc::new(Mutex::new(ExploreStats::default()));
+    std::thread::scope(|s| {
+        for mut runner in runners {
+            let frontier = frontier.clone();
+            let stats = stats.clone();
+            let cfg = cfg.clone();
+            s.spawn(move || {
+                loop {
+                    let prefix = {
+                        let (m, cv) = &*frontier;
+                        let mut f = m.lock().unwrap();
+                        loop {
+                            if f.stop {
+                                return;
+                            }
+                            if let Some(p) = f.stack.pop() {
+                                f.active += 1;
+                                f.execs += 1;
+                                if cfg.max_execs.is_some_and(|mx| f.execs > mx)
+                                    || cfg.deadline.is_some_and(|d| Instant::now() > d)
+                                {
+                                    f.stop = true;
+                                    f.active -= 1;
+                                    stats.lock().unwrap().capped = true;
+                                    cv.notify_all();
+                                    return;
+                                }
+                                break p;
+                            }
+                            if f.active == 0 {
+                                cv.notify_all();
+                                return;
+                            }
+                            f = cv.wait(f).unwrap();
+                        }
+                    };
+                    let r = runner(&prefix);
+                    let choices: Vec<usize> = r.points.iter().map(|p| p.1).collect();
+                    // children: alternatives at every step after the prefix within the budget
+                    let mut children = vec![];
+                    let mut used = 0usize;
+                    let mut used_before = Vec::with_capacity(choices.len());
+                    for c in &choices {
+                        used_before.push(used);
+                        used += c;
+                    }
+                    for i in (prefix.len()..r.points.len()).rev() {
+                        for alt in 1..r.points[i].0 {
+                            if used_before[i] + alt > cfg.run.dmax {
+                                break;
+                            }
+                            let mut p = choices[..i].to_vec();
+                            p.push(alt);
+                            children.push(p);
+                        }
+                    }
+                    {
+                        let mut st = stats.lock().unwrap();
+                        st.execs += 1;
+                        st.new_states_sum += r.new_states;
+                        if prefix.is_empty() {
+                            st.default_schedule_steps = r.n_steps;
+                        }
+                        st.transitions += r.n_steps.saturating_sub(prefix.len());
+                        st.max_depth = st.max_depth.max(r.points.len());
+                        st.max_enabled = st.max_enabled.max(r.points.iter().map(|p| p.0).max().unwrap_or(0));
+                        st.tasks_max = st.tasks_max.max(r.n_tasks);
+                        st.steps_max = st.steps_max.max(r.n_steps);
+                        st.passthrough_loads += r.passthrough_loads;
+                        st.yielding_loads += r.yielding_loads;
+                        st.window_loads += r.window_loads;
+                        if r.window_loads > 0 {
+                            st.window_execs += 1;
+                        }
+                        if r.pruned {
+                            st.pruned += 1;
+                        }
+                        if st.samples.len() < 4 && (st.execs == 1 || st.execs % 97 == 0 || r.outcome.is_some() && st.samples.len() < 2) {
+                            let nz: Vec<(usize, usize)> = choices.iter().enumerate().filter(|(_, c)| **c > 0).map(|(i, c)| (i, *c)).collect();
+                            let o = r.outcome.clone().unwrap_or_else(|| "abandoned at a visited state".into());
+                            st.samples.push((nz, r.n_steps, o));
+                        }
+                        if let Some(o) = &r.outcome {
+                            st.complete += 1;
+                            *st.outcomes.entry(o.clone()).or_default() += 1;
+                            st.outcome_first.entry(o.clone()).or_insert_with(|| choices.clone());
+                            st.launch_orders.insert(r.launch_order_hash);
+                            if !o.starts_with("ok:") {
+                                st.failures.entry(o.clone()).or_insert_with(|| choices.clone());
+                            }
+                        }
+                        if let Some(d) = &r.deadlock {
+                            st.deadlocks.entry(d.clone()).or_insert_with(|| choices.clone());
+                        }
+                        if let Some(d) = &r.divergence {
+                            st.divergences.push(d.clone());
+                        }
+                        for x in &r.races {
+                            st.races.entry(x.clone()).or_insert_with(|| choices.clone());
+                        }
+                        for x in &r.protocol_errors {
+                            st.protocol_errors.entry(x.clone()).or_insert_with(|| choices.clone());
+                        }
+                    }
+                    let (m, cv) = &*frontier;
+                    let mut f = m.lock().unwrap();
+                    f.stack.extend(children);
+                    f.active -= 1;
+                    cv.notify_all();
+                }
+            });
+        }
+    });
+    Arc::try_unwrap(stats).map(|m| m.into_inner().unwrap()).unwrap_or_default()
+}
